@@ -228,7 +228,7 @@ class _InstallWrapper(IpcCommand):
 
     # defaults options for file and dir install actions
     insoptions_default = ""
-    diroptions_default = ""
+    diroptions_default = "-m0755"
 
     # supported install command options
     install_parser = IpcArgumentParser()
@@ -242,9 +242,6 @@ class _InstallWrapper(IpcCommand):
 
     def __init__(self, *args, **kwargs):
         super().__init__(*args, **kwargs)
-        self.parser.set_defaults(
-            insoptions=self.insoptions_default, diroptions=self.diroptions_default
-        )
         self._init_coroutines()
 
     def _init_coroutines(self):
@@ -260,6 +257,11 @@ class _InstallWrapper(IpcCommand):
 
     def parse_args(self, *args, **kwargs):
         self._init_coroutines()
+        # the internal option parser is shared by all install wrappers: apply the
+        # defaults of the helper that is being run, not of the one created last
+        self.parser.set_defaults(
+            insoptions=self.insoptions_default, diroptions=self.diroptions_default
+        )
         args = super().parse_args(*args, **kwargs)
         self.parse_install_options()
         return args
